@@ -351,8 +351,31 @@ class StackPartition(Concat):
         return
 
 
+def _adopt_categories_dtype(meta, dfs):
+    # strip_unknown_categories left empty categories of object dtype in the meta,
+    # but union_categoricals only combines categories of one and the same dtype
+    def adopt(col, others):
+        if isinstance(col.dtype, pd.CategoricalDtype) and not len(col.cat.categories):
+            for other in others:
+                if isinstance(getattr(other, "dtype", None), pd.CategoricalDtype):
+                    return col.cat.set_categories(other.cat.categories[:0])
+        return col
+
+    if is_series_like(meta):
+        return adopt(meta, [df for df in dfs if is_series_like(df)])
+    if is_dataframe_like(meta) and meta.columns.is_unique:
+        meta = meta.copy()
+        for name in meta.columns[meta.dtypes == "category"]:
+            meta[name] = adopt(
+                meta[name],
+                [df[name] for df in dfs if is_dataframe_like(df) and name in df],
+            )
+    return meta
+
+
 def _align_partition(dfs, *args, **kwargs):
-    meta = dfs[0]
+    meta = _adopt_categories_dtype(dfs[0], dfs[1:])
+    dfs = [meta, *dfs[1:]]
     out = methods.concat(dfs, *args, **kwargs)
     # the concatenation only takes the index names of the (empty) meta if there
     # are columns to concatenate besides categorical ones
